@@ -46,16 +46,8 @@ def checkpicosvg (allowText dropUnsupported : Bool) : DocM (List Violation) := d
 
 /-- `_remove_orphaned_gradients()` after pruning (no master-defs purge here), then `elements = None` -/
 def removeOrphansAfterPruning : DocM Unit := do
-  let shapes ← elements
+  let used ← usedGradientIds
   let root ← getRoot
-  let mut used : List String := []
-  for (_, shs) in shapes do
-    for sh in shs do
-      let f := sh.getS "fill"
-      if f.startsWith "url(" then
-        match resolveUrl root f "*" with
-        | .ok el => if isGradientTag el.tag then used := used ++ [(el.getAttr "id").getD ""]
-        | .error _ => pure ()
   let grads := root.elems.filter (fun n => (Node.splitNs n.tag).1 == some svgNs && isGradLocal n.localTag)
   let mut r := root
   for g in grads do
@@ -121,7 +113,9 @@ def convertSteps (ndigits : Int) (noneGood : Bool) : DocM Unit := do
 /-- `topicosvg(ndigits, inplace=True, allow_text, drop_unsupported)`; ValueError when the gate
     reports violations -/
 def topicosvg (ndigits : Int) (allowText dropUnsupported noneGood : Bool) : DocM Unit :=
-  convertSteps ndigits noneGood >>= fun _ => gateStep allowText dropUnsupported
+  convertSteps ndigits noneGood >>= fun _ => gateStep allowText dropUnsupported >>= fun _ =>
+    -- the elements the gate dropped may have been the only users of a gradient
+    if dropUnsupported then removeOrphansAfterPruning else pure ()
 
 /-- `toetree()` / `tostring()`: flush and hand out the tree -/
 def toTree : DocM Node := do
